@@ -246,9 +246,15 @@ def bounded(iterable, expected, what="iteration"):
     return out
 
 
+_ADDRESS = __import__("re").compile(r" at 0x[0-9a-fA-F]+")
+
+
 def r(obj):
     """Deterministic short repr for violation records and log lines."""
     s = repr(obj)
+    if " at 0x" in s:
+        # default reprs carry a memory address: not a function of the seed
+        s = _ADDRESS.sub(" at 0x?", s)
     if len(s) > 400:
         s = s[:400] + "...(%d chars)" % len(s)
     return s
